@@ -6,7 +6,8 @@
 (* trace = [id, pi, lines : Seq(observation + who, deliv, a (bind target / detach index), chk)] *)
 EXTENDS Semantics, Props, PairsData, Json, IOUtils
 
-CONSTANTS N
+CONSTANTS N, K
+Det == N + K + 1
 Traces == JsonDeserialize(IOEnv.TRACE_FILE)
 VARIABLES tid, l, GG, TT, binds, bad
 tvars == <<tid, l, GG, TT, binds, bad>>
@@ -28,11 +29,17 @@ ToObs(L) ==
 
 SentInternal(steps) ==
   SelectSeq(FlattenSeq([k \in DOMAIN steps |-> steps[k].sent]), LAMBDA e : e.k = "i")
-ExpectedDeliv(steps, listeners) ==
-  FlattenSeq([j \in DOMAIN SentInternal(steps) |->
-     [t \in DOMAIN listeners |->
-        [to |-> listeners[t], ev |-> SentInternal(steps)[j].ev, par |-> SentInternal(steps)[j].par,
-         dl |-> SentInternal(steps)[j].dl]]])
+RECURSIVE WalkListeners(_, _, _, _)
+WalkListeners(L, k, e, acc) ==
+  IF k > Len(L) THEN [L |-> L, deliv |-> acc]
+  ELSE LET d == [to |-> L[k], ev |-> e.ev, par |-> e.par, dl |-> e.dl]
+           L2 == IF L[k] = Det /\ k < Len(L) THEN RemoveAt(L, k + 1) ELSE L
+       IN WalkListeners(L2, k + 1, e, Append(acc, d))
+DeliverAll(steps, listeners) ==
+  FoldLeft(LAMBDA acc, e : LET r == WalkListeners(acc.L, 1, e, acc.deliv) IN [L |-> r.L, deliv |-> r.deliv],
+           [L |-> listeners, deliv |-> <<>>], SentInternal(steps))
+ExpectedDeliv(steps, listeners) == DeliverAll(steps, listeners).deliv
+ListenersAfter(steps, listeners) == DeliverAll(steps, listeners).L
 
 TInit ==
   /\ tid \in DOMAIN Traces /\ l = 1 /\ bad = {}
@@ -59,6 +66,7 @@ TNext ==
         /\ TT' = tt1
         /\ binds' = CASE L.op = "bind" -> [binds EXCEPT ![i] = Append(@, L.a)]
                       [] L.op = "detach" -> [binds EXCEPT ![i] = RemoveAt(@, L.a)]
+                      [] L.op = "exec" -> [binds EXCEPT ![i] = ListenersAfter(L.steps, @)]
                       [] OTHER -> binds
   /\ l' = l + 1
   /\ UNCHANGED tid
